@@ -164,6 +164,23 @@ def programs():
     # operand inflation: every name or number of a corpus statement in turn replaced by a parenthesised expression, a
     # call with two arguments and a literal with brackets inside - wherever the result is still a valid statement its
     # lexical content must come back (the parser abstracts such operands by placeholders and has to restore each one)
+    out += inflated_programs()
+    # function suffixes and procedure headers
+    out.append(("header:0", "function f(x) bind(c) result(r)\nend function f\n", "f2003"))
+    out.append(("header:1", "function f(x) result(r) bind(c)\nend function f\n", "f2003"))
+    out.append(("header:2", "pure recursive integer function g(a, b) result(res)\nend function g\n", "f2003"))
+    out.append(("header:3", "character(len=n(1, 2)) function cf(x)\nend function cf\n", "f2003"))
+    out.append(("header:4", "real(kind=kk(1, 2)) function rf(x) result(r)\nend function rf\n", "f2003"))
+    out.append(("header:5", "type(pt(k(1, 2), 3)) function tf()\nend function tf\n", "f2003"))
+    out.append(("header:6", "subroutine sb(a, b) bind(c, name='s(b')\nend subroutine sb\n", "f2003"))
+    # continuation inside a literal with blanks after the leading '&'
+    out.append(("layout:0", "program p\n  msg = 'alpha&\n      &   beta  '\nend program p\n", "f2003"))
+    out.append(("layout:1", "program p\n  x = 1.0e&\n  &-3 + y\nend program p\n", "f2003"))
+    return out
+
+
+def inflated_programs():
+    from checks import enum_registries as ER
     inflated = []
     for kind, wrapper, stmts in (("exec", "program p\n  %s\nend program p\n", ER.EXEC), ("spec", "module m\n  %s\nend module m\n", ER.SPEC)):
         for i, st in enumerate(stmts):
@@ -179,19 +196,7 @@ def programs():
                 for j, repl in enumerate(("(zq + 1)", "fq(zq, 2)", "len('a(b')")):
                     n += 1
                     inflated.append(("inflated:%s:%d:%d" % (kind, i, n), wrapper % (st[:a] + repl + st[b:]), "f2003"))
-    out += inflated
-    # function suffixes and procedure headers
-    out.append(("header:0", "function f(x) bind(c) result(r)\nend function f\n", "f2003"))
-    out.append(("header:1", "function f(x) result(r) bind(c)\nend function f\n", "f2003"))
-    out.append(("header:2", "pure recursive integer function g(a, b) result(res)\nend function g\n", "f2003"))
-    out.append(("header:3", "character(len=n(1, 2)) function cf(x)\nend function cf\n", "f2003"))
-    out.append(("header:4", "real(kind=kk(1, 2)) function rf(x) result(r)\nend function rf\n", "f2003"))
-    out.append(("header:5", "type(pt(k(1, 2), 3)) function tf()\nend function tf\n", "f2003"))
-    out.append(("header:6", "subroutine sb(a, b) bind(c, name='s(b')\nend subroutine sb\n", "f2003"))
-    # continuation inside a literal with blanks after the leading '&'
-    out.append(("layout:0", "program p\n  msg = 'alpha&\n      &   beta  '\nend program p\n", "f2003"))
-    out.append(("layout:1", "program p\n  x = 1.0e&\n  &-3 + y\nend program p\n", "f2003"))
-    return out
+    return inflated
 
 
 def run(tier):
